@@ -24,7 +24,8 @@ DRIVER = Driver("driver_c01", "Drivers/C01.lean")
 NKEYS = 4
 SIZE = 1000
 CFGS = ["raw", "facade", "facade_secret", "raw_purge", "facade_purge", "facade_pickle",
-        "raw_fine", "facade_fine", "facade_secret_fine", "raw_purge_fine"]
+        "raw_fine", "facade_fine", "facade_secret_fine", "raw_purge_fine", "facade2", "facade2_mixed",
+        "raw_purge", "facade_purge"]          # the purge-task configurations twice per round: they need the most histories
 
 TRUSTED = [
     "Lean 4.33.0 kernel; axioms of every theorem audited to be within {propext, Classical.choice, Quot.sound}",
@@ -42,6 +43,8 @@ TRUSTED = [
     "clock resolution: the `*_fine` configurations tell the driver their ticks per second on the `case` line; only get_expire depends on it (Model/Fine.lean getExpireR, "
     "proved equal to the ideal map's at every resolution and to getExpire at 8: theorem ttl_query_at_any_resolution)",
     "container values are opaque tokens for the model (theorem get_many_returns_any_value quantifies over every Val); the harness maps them by type and equality",
+    "two-backend configurations: the harness names the keys (odd model keys get the prefix of the second backend); the facade's grouping of multi-key commands is modelled in "
+    "Model/Routed.lean (theorem two_backends_get_many_positional) and otherwise observed end to end against the single ideal map",
     "capacity eviction excluded (size=1000 >> keys); see C11",
 ]
 
@@ -120,7 +123,7 @@ def corpus_cases():
 
 def run(chk: Check) -> int:
     proof = proof_stage(PROP, "driver_c01", chk.thorough) if not getattr(chk, "skip_proof", False) else None
-    n = chk.budget(6000, 150000)
+    n = chk.budget(10500, 154000)
     found = 0
     evaluations = 0
     distinct = set()
@@ -144,6 +147,10 @@ def run(chk: Check) -> int:
         # every other round the value alphabet also holds container / empty payloads (set, frozenset, list, dict, tuple,
         # nested, empty ones, b"", ""): every read command has to hand them back as they are, in every configuration
         vals = memhist.VALS + memhist.CONTAINER_VALS if rnd % 2 == 0 else None
+        weights = None
+        if memhist.CONFIGS[cfg].get("second"):
+            # two backends behind the facade: more multi-key commands, longer key lists (their keys interleave the backends)
+            weights = {"setmany": 12, "getmany": 22, "delmany": 6}
         res = memhist.res_of(cfg)
         if res != 8:
             # the finer clock (ticks of 2**-20 s): TTLs that are not a whole number of milli- / microseconds, down to one
@@ -157,7 +164,7 @@ def run(chk: Check) -> int:
         cases.append((f"gen:{i}", cfg, memhist.gen_history(
             chk.rng, NKEYS, maxlen, advs=memhist.PHASE_ADVS if locked else None, ttls=memhist.PHASE_TTLS if locked else None,
             forms=memhist.SPELL_FORMS if spelled else None, bigttls=memhist.BIG_TTLS if big else None,
-            maxadv=4800 if memhist.CONFIGS[cfg]["purge"] else None, vals=vals)))
+            maxadv=4800 if memhist.CONFIGS[cfg]["purge"] else None, vals=vals, weights=weights, manykeys=6 if weights else 4)))
     # run the implementation on every case, then the model driver ONCE on all of them (one `case` line resets it)
     runs = []
     for origin, cfg, ops in cases:
@@ -207,6 +214,8 @@ def run(chk: Check) -> int:
                 "every float sum and comparison in the code is exact): TTLs of 1, 2, 500 ... ticks, a tick under / over 1, 2, 5, 10 ms, 1/1024 s, 1 s +- a tick, half of the advances aimed "
                 "at 1000 / 300 / 40 / 8 / 1 ticks before, exactly at, 1 / 8 ticks after a pending deadline, purge interval 1/1024 s in raw_purge_fine; every other round the value alphabet also "
                 "holds container / empty payloads (set, frozenset, list, dict, tuple, nested and empty ones, b'', ''), opaque tokens for the model, recognised by type and equality on the way back; "
+                "facade2 / facade2_mixed put two prefix-routed backends behind one facade (odd keys behind 'b:'; the second one signed in facade2_mixed) with more and longer multi-key commands, "
+                "so that get_many / set_many / delete_many meet keys that interleave the backends (counted: *_with_keys_interleaving_the_backends); the model stays one ideal map; "
                 "a case is non-trivial iff at least one command touched an expired-but-unpurged entry, "
                 "answered exactly at a deadline, or a real purge sweep was spliced in; distinct = distinct (config, op list)",
         "samples": samples,
